@@ -1533,7 +1533,10 @@ class Executor:
                 yield st, ("mkevent", K, vals.get("key"), payload, vals.get("store", const(None)))
             return
         if h == "partial":
-            yield from self.apply_func(node, ft[1], list(ft[2]) + args, kwargs, st)
+            bound_pos = [a for a in ft[2] if not (isinstance(a, tuple) and a and a[0] == "kw")]
+            bound_kw = [(a[1], a[2]) for a in ft[2] if isinstance(a, tuple) and a and a[0] == "kw"]
+            given = {k for k, _ in kwargs}
+            yield from self.apply_func(node, ft[1], bound_pos + args, [kv for kv in bound_kw if kv[0] not in given] + list(kwargs), st)
             return
         if h == "attr":
             # a bound method held in a variable (convert = getattr(codec, 'encode'); emit = observer.on_next)
@@ -1605,7 +1608,7 @@ class Executor:
                 return
         if h == "glob":
             if ft[1] == "functools.partial" and args:
-                yield st, ("partial", args[0], tuple(args[1:]))
+                yield st, ("partial", args[0], tuple(args[1:]) + tuple(("kw", k, v) for k, v in kwargs))
                 return
             if ft[1] in OPERATOR_CMP and len(args) == 2 and not kwargs:
                 yield st, ("cmp", OPERATOR_CMP[ft[1]], args[0], args[1])
